@@ -483,6 +483,7 @@ func verifPair(h *verifHub, c VerifCase, op VerifOp) (oo VerifOpObs) {
 	blocked := make(chan struct{})
 	var once, onceBlocked sync.Once
 	var paused int32
+	armed := int32(1) // only actor 1 is ever paused: disarmed once it has finished without reaching the point
 	var waitingSince int64 // actor 2 waits for some other lock since (a repaired tree may make it wait elsewhere)
 	target := op.Ds
 	stopPoll := make(chan struct{})
@@ -500,7 +501,7 @@ func verifPair(h *verifHub, c VerifCase, op VerifOp) (oo VerifOpObs) {
 		}
 	}()
 	verifhook.SetHandler(func(name, arg string) {
-		if name == "updateDataset.afterRead" && arg == target {
+		if name == "updateDataset.afterRead" && arg == target && atomic.LoadInt32(&armed) == 1 {
 			first := false
 			once.Do(func() { first = true })
 			if first {
@@ -538,6 +539,7 @@ func verifPair(h *verifHub, c VerifCase, op VerifOp) (oo VerifOpObs) {
 		oo.Reached = true
 	case aObs = <-aDone:
 		aFinished = true
+		atomic.StoreInt32(&armed, 0)
 	case <-time.After(30 * time.Second):
 		watchdog("actor 1 neither reached the pause point nor finished")
 	}
